@@ -1,7 +1,7 @@
 (* Props/C02.v -- Written TextGrid files are well-formed.
    Property theorems only; proofs are in IO/RefProofs.v, IO/CodecProofs.v, IO/PrepProofs.v. *)
 From Coq Require Import Lia String.
-From PraatIO Require Import Check.IoCheck IO.CodecProofs IO.RefProofs IO.PrepProofs.
+From PraatIO Require Import Check.IoCheck IO.CodecProofs IO.RefProofs IO.PrepProofs IO.RefFileProofs.
 Open Scope Z_scope.
 
 (* the specification reader decodes the string token written for a name or label to exactly
@@ -40,6 +40,45 @@ Qed.
 Print Assumptions C02_blank_filled_partition_threshold.
 
 (* non-vacuity / sanity of the reference reader on a written file with keyword-like text *)
+(* whole files: the specification reader (free-standing numbers, quoted strings, <flags>; every
+   other word is comment) reads what the short writer and the long writer print to exactly the
+   data -- every tier in order with its class, name, span and entries, declared sizes equal to the
+   numbers of items, nothing left over -- for EVERY name and label (quotes, newlines, the formats'
+   own keywords and field look-alikes included) and any number of tiers and entries.  The only
+   premises: number tokens are number words, and an interval tier holds intervals, a point tier points. *)
+Theorem C02_spec_reader_short_file tab g :
+  tg_ref tab g = true -> forallb kinds_ok (dg_tiers g) = true ->
+  ref_parse (print_short tab g) = Some (expect_tg tab g).
+Proof. exact (ref_parse_short tab g). Qed.
+Print Assumptions C02_spec_reader_short_file.
+
+Theorem C02_spec_reader_long_file tab g :
+  tg_ref tab g = true -> forallb kinds_ok (dg_tiers g) = true ->
+  ref_parse (print_long tab g) = Some (expect_tg tab g).
+Proof. exact (ref_parse_long tab g). Qed.
+Print Assumptions C02_spec_reader_long_file.
+
+(* the token stream itself: strings, numbers and the one flag, in file order *)
+Theorem C02_tokens_of_long_file tab g :
+  tg_ref tab g = true -> tokenize (print_long tab g) = Some (toks_tg tab g).
+Proof. exact (tokenize_long tab g). Qed.
+Print Assumptions C02_tokens_of_long_file.
+
+Theorem C02_long_and_short_carry_same_data tab g :
+  tg_ref tab g = true -> forallb kinds_ok (dg_tiers g) = true ->
+  ref_parse (print_long tab g) = ref_parse (print_short tab g).
+Proof. exact (ref_long_short_agree tab g). Qed.
+Print Assumptions C02_long_and_short_carry_same_data.
+
+(* non-vacuity: labels and a name made of the formats' own keywords *)
+Example C02_file_example :
+  let tab := [(0, mkNum true (T "0") (T "0.0")); (1, mkNum false (T "1") (T "1.5")); (2, mkNum false (T "2") (T "2.25e-05"))]%Z in
+  let g := mkDTG 0 2 [mkDT true (T "item [1]: ""IntervalTier""") 0 2 [DI 0 1 (T "intervals [2]: xmin = 3 "); DI 1 2 (T """TextTier"" 7 <exists>")];
+                      mkDT false (T "p") 0 2 [DP 1 [34%N; 10%N; 33%N]]]%Z in
+  tg_ref tab g = true /\ forallb kinds_ok (dg_tiers g) = true
+  /\ ref_parse (print_long tab g) = Some (expect_tg tab g) /\ ref_parse (print_short tab g) = Some (expect_tg tab g).
+Proof. vm_compute. repeat split; reflexivity. Qed.
+
 Example C02_example :
   let tab := [(0, mkNum true (T "0") (T "0.0")); (1, mkNum false (T "1") (T "1.5"))] in
   let g := mkDTG 0 1 [mkDT true (T "item [2]:") 0 1 [DI 0 1 (T """IntervalTier""")]] in
